@@ -92,6 +92,55 @@ theorem sorted_is_range (ms : List MatrixData) (hone : ∀ i, i < ms.length → 
     simpa using (List.mem_filter.mp hmem).2
   omega
 
+theorem distinctKeys_of_count (g : List MatrixData)
+    (h : ∀ m ∈ g, (g.filter (fun x => x.key == m.key)).length = 1) : DistinctKeys g := by
+  unfold DistinctKeys
+  induction g with
+  | nil => exact List.Pairwise.nil
+  | cons x g ih =>
+    rw [List.pairwise_cons]
+    constructor
+    · intro y hy hk
+      have := h x List.mem_cons_self
+      simp only [List.filter_cons, beq_self_eq_true, if_true, List.length_cons] at this
+      have hmem : y ∈ g.filter (fun z => z.key == x.key) := by
+        rw [List.mem_filter]; exact ⟨hy, by simp [hk]⟩
+      have hpos : 0 < (g.filter (fun z => z.key == x.key)).length := List.length_pos_of_mem hmem
+      omega
+    · apply ih
+      intro m hm
+      have h1 := h m (List.mem_cons_of_mem _ hm)
+      have hmem : m ∈ g.filter (fun z => z.key == m.key) := by
+        rw [List.mem_filter]; exact ⟨hm, by simp⟩
+      have hpos : 0 < (g.filter (fun z => z.key == m.key)).length := List.length_pos_of_mem hmem
+      simp only [List.filter_cons] at h1
+      split at h1
+      · simp only [List.length_cons] at h1; omega
+      · exact h1
+
+theorem not_adjacentEqual_of_strict (ks : List Nat) (h : ks.Pairwise (fun a b => a < b)) : adjacentEqual ks = false := by
+  induction ks with
+  | nil => rfl
+  | cons a ks ih =>
+    cases ks with
+    | nil => rfl
+    | cons b ks' =>
+      rw [List.pairwise_cons] at h
+      simp only [adjacentEqual, Bool.or_eq_false_iff, beq_eq_false_iff_ne, ne_eq]
+      exact ⟨by have := h.1 b List.mem_cons_self; omega, ih h.2⟩
+
+/-- pairwise different keys pass the `windows(2)` check of the sorted keys -/
+theorem sorted_check_of_distinctKeys (g : List MatrixData) (hd : DistinctKeys g) :
+    adjacentEqual ((sortByKey g).map MatrixData.key) = false := by
+  apply not_adjacentEqual_of_strict
+  rw [List.pairwise_map]
+  have hne : (sortByKey g).Pairwise (fun a b => a.key ≠ b.key) := by
+    have hsym : ∀ {a b : MatrixData}, a.key ≠ b.key → b.key ≠ a.key := fun hab => Ne.symm hab
+    exact (List.Perm.pairwise_iff (R := fun a b : MatrixData => a.key ≠ b.key) hsym (sortByKey_perm g)).mpr hd
+  have hle := sortByKey_sorted g
+  have := hle.and hne
+  exact this.imp (fun hab => by omega)
+
 /-- **build_accepts_well_formed**: every set the specification calls well formed is accepted, with the right size -/
 theorem build_accepts_well_formed (ms : List MatrixData) (n : Nat) (h : wellFormed ms n = true) :
     ∃ pr, build ms = .ok pr ∧ pr.size = n := by
@@ -113,8 +162,12 @@ theorem build_accepts_well_formed (ms : List MatrixData) (n : Nat) (h : wellForm
     have c3 : ¬ ((first :: rest).any (fun m => sqrtRound m.durations.length != sqrtRound first.durations.length) = true) := by
       rw [List.any_eq_true]; rintro ⟨m, hm, hbad⟩
       rw [(hdim m hm).1, sqrtRound_sq, hsz] at hbad; simp at hbad
+    have c3b : ¬ ((first :: rest).any (fun m => m.durations.length !=
+        sqrtRound first.durations.length * sqrtRound first.durations.length) = true) := by
+      rw [List.any_eq_true]; rintro ⟨m, hm, hbad⟩
+      rw [(hdim m hm).1, hsz] at hbad; simp at hbad
     unfold build
-    simp only [c1, c2, c3, if_false, Bool.false_eq_true]
+    simp only [c1, c2, c3, c3b, if_false, Bool.false_eq_true]
     rcases hkind with ⟨hunt, hone⟩ | ⟨htimed, hgroups⟩
     · -- untimed
       have c4 : ¬ ((first :: rest).any (fun m => m.timestamp.isSome) = true) := by
@@ -147,34 +200,21 @@ theorem build_accepts_well_formed (ms : List MatrixData) (n : Nat) (h : wellForm
         have e : groupOf (first :: rest) m.index = supplied (first :: rest) m.index := rfl
         rw [e] at hbad
         exact (hgroups m hm).1 (by simpa using hbad)
-      simp only [c5, c6, if_false, Bool.false_eq_true]
+      have c7 : ¬ ((first :: rest).any (fun m =>
+          adjacentEqual ((sortByKey (groupOf (first :: rest) m.index)).map MatrixData.key)) = true) := by
+        rw [List.any_eq_true]; rintro ⟨m, hm, hbad⟩
+        have hd : DistinctKeys (groupOf (first :: rest) m.index) := by
+          apply distinctKeys_of_count
+          intro x hx
+          have hxm : x ∈ first :: rest := (List.mem_filter.mp hx).1
+          have hxi : x.index = m.index := by simpa using (List.mem_filter.mp hx).2
+          have := (hgroups x hxm).2
+          rw [hxi] at this
+          exact this
+        rw [sorted_check_of_distinctKeys _ hd] at hbad
+        cases hbad
+      simp only [c5, c6, c7, if_false, Bool.false_eq_true]
       exact ⟨_, rfl, hsz⟩
-
-theorem distinctKeys_of_count (g : List MatrixData)
-    (h : ∀ m ∈ g, (g.filter (fun x => x.key == m.key)).length = 1) : DistinctKeys g := by
-  unfold DistinctKeys
-  induction g with
-  | nil => exact List.Pairwise.nil
-  | cons x g ih =>
-    rw [List.pairwise_cons]
-    constructor
-    · intro y hy hk
-      have := h x List.mem_cons_self
-      simp only [List.filter_cons, beq_self_eq_true, if_true, List.length_cons] at this
-      have hmem : y ∈ g.filter (fun z => z.key == x.key) := by
-        rw [List.mem_filter]; exact ⟨hy, by simp [hk]⟩
-      have hpos : 0 < (g.filter (fun z => z.key == x.key)).length := List.length_pos_of_mem hmem
-      omega
-    · apply ih
-      intro m hm
-      have h1 := h m (List.mem_cons_of_mem _ hm)
-      have hmem : m ∈ g.filter (fun z => z.key == m.key) := by
-        rw [List.mem_filter]; exact ⟨hm, by simp⟩
-      have hpos : 0 < (g.filter (fun z => z.key == m.key)).length := List.length_pos_of_mem hmem
-      simp only [List.filter_cons] at h1
-      split at h1
-      · simp only [List.length_cons] at h1; omega
-      · exact h1
 
 /-- a well-formed timed set has pairwise different keys within every profile (the hypothesis D2 of the theorems) -/
 theorem wellFormed_distinct (ms : List MatrixData) (n : Nat) (h : wellFormed ms n = true)
